@@ -10,7 +10,9 @@ import (
 	"sort"
 	"strings"
 
+	"github.com/goatcms/goatcore/app"
 	"github.com/goatcms/goatcore/app/gio"
+	"github.com/goatcms/goatcore/app/gio/bufferio"
 )
 
 func init() { commands["inpcases"] = cmdInpCases }
@@ -136,7 +138,15 @@ func cmdInpCases(args []string) error {
 					cp[i] = append([]byte{}, src[i]...)
 				}
 				runs++
-				inp := gio.NewInputSize(&chunkReader{chunks: cp}, size)
+				var inp app.Input = gio.NewInputSize(&chunkReader{chunks: cp}, size)
+				// Tee (Input.tla): every second run reads through a bufferio.BufferInput, which must return what its
+				// parent returns and keep exactly that in its buffer
+				var tee *bufferio.Buffer
+				if (executed+runs)%2 == 0 {
+					tee = bufferio.NewBuffer()
+					inp = bufferio.NewBufferInput(inp, tee)
+				}
+				delivered := ""
 				for i, st := range c.Hist {
 					var got string
 					var gerr error
@@ -181,6 +191,11 @@ func cmdInpCases(args []string) error {
 					}
 					if (gerr == io.EOF) != st.EOF {
 						fail("eof:"+st.Op, inner, fmt.Sprintf("%s returned %q with err %v, specification EOF=%v", ctxs, got, gerr, st.EOF))
+						break
+					}
+					delivered += got
+					if tee != nil && tee.String() != delivered {
+						fail("tee:"+st.Op, inner, fmt.Sprintf("%s through a BufferInput: the buffer holds %q, the calls returned %q", ctxs, tee.String(), delivered))
 						break
 					}
 				}
